@@ -173,6 +173,8 @@ def check_rigid(r) -> list[Fail]:
     op = r["op"]
     R = _proper_R(r["rseed"])
     v = np.array(r["vec"], dtype=float)
+    # the documented `validate` flag of transform(): a proper rotation is a valid matrix, so the flag changes nothing about the result
+    vkw = {"validate": True} if r.get("validate") else {}
 
     def same_shape(before, after, what, proper=True):
         db, da = _pd(before), _pd(after)
@@ -194,7 +196,7 @@ def check_rigid(r) -> list[Fail]:
                 fails.append(Fail("rigid:translate:not-the-vector", ""))
             same_shape(before, m.coords, "translate")
         elif op == "transform":
-            m.transform(R)
+            m.transform(R, **vkw)
             if not np.allclose(m.coords, before @ R, atol=1e-9):
                 fails.append(Fail("rigid:transform:not-coords@R", ""))
             same_shape(before, m.coords, "transform")
@@ -208,7 +210,7 @@ def check_rigid(r) -> list[Fail]:
                     sub.translate(v)
                     exp = before[idx] + v
                 else:
-                    sub.transform(R)
+                    sub.transform(R, **vkw)
                     exp = before[idx] @ R
                 rest = [i for i in range(n) if i not in idx]
                 if not np.array_equal(m.coords[rest], before[rest]):
@@ -241,7 +243,7 @@ def check_rigid(r) -> list[Fail]:
                 sub.translate(v)
                 exp = before[idx] + v
             else:
-                sub.transform(R)
+                sub.transform(R, **vkw)
                 exp = before[idx] @ R
             rest = [i for i in range(n) if i not in idx]
             if not np.array_equal(m.coords[rest], before[rest]):
@@ -302,7 +304,7 @@ def strat_rigid(tier):
     return st.fixed_dictionaries({
         "op": st.sampled_from(["translate", "transform", "sub_translate", "sub_transform", "ens_translate1", "ens_translate2", "ens_rotate1", "ens_rotate_per_conf", "center_at_atom", "center_at_core"]),
         "mol": ensr, "rseed": st.integers(0, 10**6), "vec": st.lists(st.floats(-20, 20), min_size=3, max_size=3), "idx": st.lists(st.integers(0, 60), min_size=1, max_size=6),
-        "parent_edit": st.sampled_from([0, 0, 1, 1, 2]), "dups": st.sampled_from([False, False, True]),
+        "parent_edit": st.sampled_from([0, 0, 1, 1, 2]), "dups": st.sampled_from([False, False, True]), "validate": st.sampled_from([False, False, True]),
     })
 
 
@@ -364,6 +366,23 @@ def check_dihedral(r) -> list[Fail]:
             c_ = np.array(m.coords, dtype=float)
             c_[:, 2] = 0.0
             m.coords = c_
+    rewired = False
+    if r.get("rewire") and "file" not in r and m.n_bonds >= 1 and m.n_atoms >= 4:
+        # the molecule has been LOOKED AT (ring test, traversal, neighbours) and then re-wired in place - one bond deleted, another made,
+        # so the numbers of atoms and bonds are what they were - before the dihedral is turned on this very object
+        for b_ in list(m.bonds):
+            m.is_bond_in_ring(b_)
+        list(m.yield_bfs(m.atoms[0]))
+        for a_ in m.atoms:
+            list(m.connected_atoms(a_))
+        k_ = r["rewire"][0] % m.n_bonds
+        bonded = {frozenset((m.atoms.index(b_.a1), m.atoms.index(b_.a2))) for b_ in m.bonds}
+        free = [(i, j) for i in range(m.n_atoms) for j in range(i + 1, m.n_atoms) if frozenset((i, j)) not in bonded]
+        if free:
+            i_, j_ = free[r["rewire"][1] % len(free)]
+            m.del_bond(m.bonds[k_])
+            m.connect(i_, j_)
+            rewired = True
     cands, g = _candidates(m)
     if not cands:
         return []
@@ -371,7 +390,7 @@ def check_dihedral(r) -> list[Fail]:
     picks = cands if r.get("all") else [cands[r["pick"] % len(cands)]]
     keys = []
     for (a1, a2, a3, a4) in picks:
-        mm = ml.Molecule(m)
+        mm = m if (rewired and len(picks) == 1) else ml.Molecule(m)
         before = mm.coords.copy()
         target = r["target"]
         import networkx as nx
@@ -429,7 +448,8 @@ def check_dihedral(r) -> list[Fail]:
 
 def strat_dihedral(tier):
     molr = chem.molecule_recipe(max_atoms=14, max_bonds=14, attribs=False, full=False, special_coords=False, min_atoms=4).map(_spread)
-    return st.fixed_dictionaries({"mol": molr, "pick": st.integers(0, 1000), "target": st.one_of(st.floats(-math.pi, math.pi), st.sampled_from([0.0, 0.3, math.pi, -math.pi / 2, 3.0, -3.1])), "flat": st.sampled_from([False, False, True])})
+    return st.fixed_dictionaries({"mol": molr, "pick": st.integers(0, 1000), "target": st.one_of(st.floats(-math.pi, math.pi), st.sampled_from([0.0, 0.3, math.pi, -math.pi / 2, 3.0, -3.1])), "flat": st.sampled_from([False, False, True]),
+                                  "rewire": st.one_of(st.none(), st.tuples(st.integers(0, 100), st.integers(0, 1000)).map(list))})
 
 
 def enum_dihedral(tier, shard, nshards):
